@@ -145,9 +145,14 @@ def io_loops(ctx, prog, A):
         c, pol = peel_cond(P.expr(t.ops[0])) if t.ops else (('const', 1), True)
         cn = cmp_norm(c)
         on_true = t.op == 'br' and len(t.extra['targets']) == 2 and t.extra['targets'][0] == s
+        cs = strip_casts(c)
         if cn is not None and cn[2] == ('const', 0) and cn[0] in ('eq', 'ne') and strip_casts(cn[1])[0] == 'call' and \
                 strip_casts(cn[1])[2] is rd[0] and ((cn[0] == 'eq') == (on_true == pol)):
             kinds.add('eof')                # left on read() == 0
+        elif cn is None and cs[0] == 'call' and cs[2] is rd[0] and (on_true != pol):
+            kinds.add('eof')                # the same test with `== 0` peeled into the polarity
+        elif cn is None and cs[0] == 'load' and 'param:vacant' in render(cs) and (on_true != pol):
+            kinds.add('full')               # `while (*vacant)` form
         elif cn is not None and cn[2] == ('const', 0) and 'param:vacant' in render(cn[1]) and \
                 strip_casts(cn[1])[0] == 'load' and \
                 ((cn[0] in ('ugt', 'ne') and on_true != pol) or (cn[0] == 'eq' and on_true == pol)):
@@ -195,8 +200,17 @@ def io_loops(ctx, prog, A):
         x = cn[1] if cn else exits[0][2]
         # the tested value is the remaining size: phi/sub of size by the write result
         x = strip_casts(x)
-        if x[0] == 'bin' and x[1] == 'sub' and strip_casts(x[3])[0] == 'call' and strip_casts(x[3])[2] is wr[0]:
+
+        def is_dec(e):
+            e = strip_casts(e)
+            return e[0] == 'bin' and e[1] == 'sub' and strip_casts(e[3])[0] == 'call' and strip_casts(e[3])[2] is wr[0]
+        if is_dec(x):
             adv_ok = True
+        elif x[0] == 'phi':
+            # `while (size > 0)` form: the tested value is the loop-carried size; every value carried around the
+            # loop must be (size - write result)
+            carried = [v for v, src in Pg.phi_inputs(x) if src in body]
+            adv_ok = bool(carried) and all(is_dec(v) for v in carried)
     ctx.ob('C21.xwrite', 'the write loop is left only when nothing remains (short writes are retried)', g.loc(wr[0]), ok,
            'exits: %s' % [(a, b, render(c)) for a, b, c in exits])
     ctx.ob('C21.xwrite', 'the remaining size decreases by what write() returned', g.loc(wr[0]), adv_ok,
